@@ -2,3 +2,4 @@ pub mod core;
 pub mod router;
 pub mod pure;
 pub mod net;
+pub mod fuzzrun;
